@@ -721,6 +721,54 @@ def check_lessmeta(ck, s):
     return 1
 
 
+def _override_path(p):
+    ov = os.environ.get("XZ_VERIF_FILE_OVERRIDE")
+    for pair in (ov or "").split(","):
+        if "=" in pair:
+            orig, repl = pair.split("=", 1)
+            if os.path.abspath(orig) == os.path.abspath(p):
+                return repl
+    return p
+
+
+def check_names(ck, s):
+    """xzgrep is installed under several names (CMakeLists.txt: XZGREP_LINKS = xzegrep xzfgrep lzgrep lzegrep lzfgrep); the
+    `case ${0##*/}` at the top selects grep -E / grep -F from the name.  Every installed *egrep name has to reach the -E arm
+    and every *fgrep name the -F arm, the rest neither: otherwise lzegrep 'a|b' searches for the literal string."""
+    import fnmatch
+    import re
+    cm = open(_override_path(os.path.join(REPO, "CMakeLists.txt"))).read()
+    names = {"xzgrep"}
+    for m in re.finditer(r"(?:set|list)\(\s*(?:APPEND\s+)?XZGREP_LINKS\s+([^)]*)\)", cm):
+        names |= set(m.group(1).split())
+    if not {"xzegrep", "xzfgrep", "lzegrep", "lzfgrep"} <= names:
+        raise AnalysisBroken("CMakeLists.txt: XZGREP_LINKS not understood (%s)" % sorted(names))
+    case = None
+    for c, ctx in s.cmds:
+        if c["t"] == "case" and c["word"].text() in ("${0##*/}", "$0", "${0}"):
+            case = c
+            break
+    if case is None:
+        raise AnalysisBroken("xzgrep: `case ${0##*/}` not found")
+    n = 0
+    for nm in sorted(names):
+        want = "-E" if nm.endswith("egrep") else "-F" if nm.endswith("fgrep") else ""
+        got = None
+        for arm in case["arms"]:
+            pats, body = arm[0], arm[1]
+            if any(fnmatch.fnmatchcase(nm, p_.text()) for p_ in pats):
+                txt = " ".join(v.text() for c2, ctx2 in sh.walk_commands(body) if c2["t"] == "simple" for (a, v) in c2["assigns"] if a == "grep")
+                got = "-E" if "-E" in txt else "-F" if "-F" in txt else ""
+                break
+        n += 1
+        ck.ob("C20-STATUS", "xzgrep:name:%s" % nm, got == want, s.where(case["line"]),
+              "%s selects grep %s" % (nm, want or "(basic)") if got == want else
+              "xzgrep: invoked as %s the script runs `grep %s` instead of `grep %s`: the pattern is interpreted with the wrong "
+              "syntax (e.g. `%s 'a|b'` searches for the literal text), unlike %s on the decompressed data" % (
+                  nm, got if got else "(basic)", want or "(basic)", nm, nm[2:]), key="STATUS:xzgrep:name:%s" % nm)
+    return n
+
+
 def check_status(ck, s, tainted):
     n = 0
     if s.name in ("xzgrep", "xzdiff"):
@@ -1102,6 +1150,8 @@ def run(ck):
         tot["store"] += st
         if name == "xzgrep":
             check_sed(ck, s, tainted)
+        if name == "xzgrep":
+            tot["status"] += check_names(ck, s)
         if name == "xzless":
             tot["exp"] += check_lessmeta(ck, s)
         tot["opt"] += check_opt(ck, s, tainted)
@@ -1125,6 +1175,44 @@ def run(ck):
           "xz io_open_src(): an empty file name is reported with %s: under -Q (as the scripts call xz) the exit status stays 0, "
           "so `xzgrep pat \"\"` returns 1 (or 0) where grep returns 2" % [c for c in calls if c], key="STATUS:xz:empty-name-is-error")
     tot["status"] += 1
+    # grep -q / -l, cmp and diff stop reading as soon as they know the answer; xz then gets EPIPE (or SIGPIPE, which the
+    # scripts recognise by a status >= 128).  The scripts turn every other non-zero status of xz into 2, so with SIGPIPE
+    # ignored (nohup, some CI runners) the answer stays grep's only if xz does not make EPIPE an error of its own.
+    from sa import guard as _guard
+    wb = px.fn("io_write_buf", "file_io.c", target="xz")
+    ck.saw_function(wb)
+    ge = _guard.find_cmp(wb, "call:__errno_location", "const:32")
+    if not ge:
+        raise AnalysisBroken("io_write_buf: the comparison of errno with EPIPE was not found")
+    loud = None
+    for g_ in ge:
+        blk = wb.blocks[g_.bid]
+        seen, st = set(), [blk.succs[0] if g_.pass_label == "T" else blk.succs[1]]
+        while st:
+            x = st.pop()
+            if x is None or x in seen:
+                continue
+            seen.add(x)
+            for e in wb.blocks[x].elems:
+                if e is None:
+                    continue
+                for c in _ex.calls(e, into_refs=False):
+                    if c.get("fn") in ("message_error", "message_fatal", "set_exit_status"):
+                        loud = loud or c
+            st.extend(wb.blocks[x].succs)
+    ck.ob("C20-STATUS", "xz:epipe-is-not-an-error", loud is None, _common.where(wb, loud if loud else ge[0].line),
+          "xz io_write_buf: EPIPE ends the writing without an error status of xz's own" if loud is None else
+          "xz io_write_buf(): a write that fails with EPIPE now calls %s(): when SIGPIPE is ignored, `xzgrep -q`/`-l`, xzcmp and xzdiff "
+          "(whose grep/cmp/diff legitimately stop reading early) see xz exit 1 and report 2 where grep/cmp/diff on the decompressed "
+          "data report 0 or 1" % loud.get("fn"), key="STATUS:xz:epipe-is-not-an-error")
+    tot["status"] += 1
+    # the scripts decompress with `xz -dcf`: a file that xz does not recognise is copied through unchanged, so what xz
+    # recognises as .lzma has to be what the library decodes (rules shared with C16)
+    from . import C16 as _C16
+    ck.rule("C20-FMT", "xz recognises exactly the .lzma headers that liblzma's .lzma decoder accepts")
+    pc = _common.program(ck, ("xz",), files=("/coder.c",))
+    _C16.check_xz_lzma_heur(ck, pc, rule="C20-FMT")
+    _C16.check_xz_lzma_size(ck, _common.program(ck, ("liblzma",), files=("/common/alone_decoder.c",)), pc, rule="C20-FMT")
     ck.extra["counts"] = tot
     ck.floor("C20-QUOTE", 20)
     ck.floor("C20-EVAL", 25)
